@@ -197,3 +197,248 @@ Theorem C09_close_decision_generated : forall cf st k, panicked st = 0 ->
   (step cf st (LDrained k) <> None <-> relayCanClose false (c_pending (get_conn st k)) = true).
 Proof. exact can_close_tie. Qed.
 Print Assumptions C09_close_decision_generated.
+
+(* ================================================================ strengthened statements (T09)
+
+   (A) the duplicate-id lookup never touches the timer of the call in flight under that id;
+   (B) every decrement of Relayer.pending is followed by the close check of the same goroutine, so
+       a connection whose counter reaches 0 while it is closing completes its close from EVERY
+       state;
+   (C) the theorems of the fresh-id quantifier hold for schedules with re-used ids that meet an
+       item (duplicate call req against a live item or a tombstone);
+   the model's tombstone collection (label LGc) is relayItems.deleteTomb: it deletes a tombstone
+   only and leaves a live item alone. *)
+From Verif Require Import Gen.GenFrame Gen.GenRelaySites Model.RelaySites Proofs.RelaySitesP Proofs.RelayCloseP
+  Proofs.RelayAdmitP Proofs.RelayReuseP Proofs.RelayReuse9P.
+
+(* ---- (A) relayItems.Get sites ---- *)
+
+(* The table of every relayItems.Get call with its stopTimeout argument, and of every
+   relayTimer.Stop call, regenerated from relay.go on every run, ARE the model's; read as the
+   boolean the model passes to items_get: getDestination false, handleNonCallReq and Receive
+   finishesCall(frame), failRelayItem true; relayTimer.Stop is called by relayItems.Get only. *)
+Theorem C09_get_sites_generated :
+  relay_get_sites = rs_get_rows /\ relay_stop_sites = rs_stop_rows /\
+  forall fin,
+    site_stop relay_get_sites fn_getDestination fin = Some false /\
+    site_stop relay_get_sites fn_handleNonCallReq fin = Some fin /\
+    site_stop relay_get_sites fn_Receive fin = Some fin /\
+    site_stop relay_get_sites fn_failRelayItem fin = Some true.
+Proof. exact (conj gen_get_sites (conj gen_stop_sites get_sites_flags)). Qed.
+Print Assumptions C09_get_sites_generated.
+
+(* relayItems.Get and relayItems.deleteTomb themselves, statement by statement as regenerated, and
+   the only scheduled collection of relay.go (Entomb schedules deleteTomb), ARE what the model's
+   items_get / items_delete_tomb / LGc describe: Get touches no timer unless the item is found
+   AND stopTimeout is set; the collection deletes a tombstone only *)
+Theorem C09_get_and_collection_generated :
+  relay_get_body = rs_getbody_rows /\ relay_deletetomb_body = rs_tombbody_rows /\ relay_gc_sites = rs_gc_rows /\
+  (forall (st : state) (t : key) (stop : bool),
+     match lookup key_eqb t (items st) with
+     | None => items_get st t stop = (st, None)
+     | Some it =>
+         if stop then items_get st t stop = (fst (timer_stop st (it_tm it)), Some (it, snd (timer_stop st (it_tm it))))
+         else items_get st t stop = (st, Some (it, false))
+     end) /\
+  (forall st t,
+     match lookup key_eqb t (items st) with
+     | None => items_delete_tomb st t = st
+     | Some it =>
+         if it_tomb it then items_delete_tomb st t = timer_release (set_items st (remove key_eqb t (items st))) (it_tm it)
+         else items_delete_tomb st t = st
+     end).
+Proof. exact (conj gen_get_body (conj gen_deletetomb_body (conj gen_gc_sites (conj items_get_cases items_delete_tomb_cases)))). Qed.
+Print Assumptions C09_get_and_collection_generated.
+
+(* ... and each lookup instruction of the model is items_get with the flag of its generated row *)
+Theorem C09_get_sites_model : forall cf st room,
+  (forall k f e c b, site_stop relay_get_sites fn_getDestination (fin_of f) = Some b ->
+     exec cf st (IGetDest k f e c) room = getdest_via k f e c (items_get st (k, 0, f_id f) b)) /\
+  (forall k f ft b, site_stop relay_get_sites fn_handleNonCallReq (fin_of f) = Some b ->
+     frameTypeFor (f_mt f) = Some ft ->
+     exec cf st (INcGet k f) room =
+       (let own := (k, (if ft =? c_responseFrame then 1 else 0), f_id f) in
+        let '(st', g) := items_get st own b in (st', [INcChk k f ft own g]))) /\
+  (forall r b, site_stop relay_get_sites fn_Receive (fin_of (r_f r)) = Some b ->
+     exec cf st (IRcvGet r) room =
+       (let rk := (r_d r, (if r_ft r =? c_requestFrame then 1 else 0), f_id (r_f r)) in
+        let '(st', g) := items_get st rk b in (st', [IRcvChk r rk g]))) /\
+  (forall t reason b fin, site_stop relay_get_sites fn_failRelayItem fin = Some b ->
+     exec cf st (IFailGet t reason) room =
+       (let '(st', g) := items_get st t b in
+        match g with Some (_, true) => (st', [IEntomb t (FromFail reason)]) | _ => (st', []) end)).
+Proof. exact get_sites_tie. Qed.
+Print Assumptions C09_get_sites_model.
+
+(* a call req whose id has an item -- the call in flight under that id, or its tombstone -- is
+   rejected and the step changes NOTHING: the item, its timer (an armed timeout stays armed) and
+   every counter are as before; what remains is Failed(duplicate), the decrement of the unit
+   canHandleNewCall took (followed by the close check) and End for the NEW call *)
+Theorem C09_duplicate_touches_nothing : forall cf st k f e c room it,
+  lookup key_eqb (k, 0, f_id f) (items st) = Some it ->
+  exec cf st (IGetDest k f e c) room = (st, [ICb c (CbFailed reason_duplicate); IDec k; ICb c CbEnd]).
+Proof. exact duplicate_touches_nothing. Qed.
+Print Assumptions C09_duplicate_touches_nothing.
+
+(* ---- (B) Relayer.pending and the close check ---- *)
+
+(* The table of every use of the field Relayer.pending, the body of decrementPending and the
+   table of its callers, regenerated on every run, ARE the model's: Inc in canHandleNewCall
+   (under the state read lock, guarded by canHandle), Load in countPending, Dec in
+   decrementPending and NOWHERE else; decrementPending = the decrement, then
+   conn.checkExchanges(); called by handleCallReq's rejection branch, timeoutRelayItem,
+   failRelayItem, finishRelayItem; checkExchanges is called (inside relay.go) from there only. *)
+Theorem C09_pending_sites_generated :
+  relay_pending_sites = rs_pending_rows /\ relay_decpending_body = rs_decbody_rows /\
+  relay_decpending_calls = rs_deccall_rows /\ relay_checkex_sites = rs_checkex_rows /\
+  pending_discipline relay_pending_sites = true /\ decbody_ok relay_decpending_body = true.
+Proof. exact (conj gen_pending_sites (conj gen_decbody (conj gen_deccalls (conj gen_checkex (conj pending_discipline_gen decbody_gen))))). Qed.
+Print Assumptions C09_pending_sites_generated.
+
+(* hence: whichever row of the generated table writes the counter (anything but Inc / Load), it
+   is inside decrementPending, whose generated body is the decrement followed by the close check *)
+Theorem C09_every_decrement_checks : forall fn op grd,
+  In (fn, op, grd) relay_pending_sites -> pending_mutates op = true ->
+  fn = fn_decrementPending /\ relay_decpending_body = rs_decbody_rows.
+Proof. exact every_decrement_checks. Qed.
+Print Assumptions C09_every_decrement_checks.
+
+(* the model's decrementPending: the decrement pushes the close check for the same goroutine;
+   its callers push exactly one decrement of the connection each (rejections of getDestination
+   and of the remote admission, a completed Entomb, a completed Delete) *)
+Theorem C09_decrement_model : forall cf st room,
+  (forall k, exec cf st (IDec k) room =
+     (put_conn st k {| c_state := c_state (get_conn st k); c_pending := wrapU 32 (c_pending (get_conn st k) - 1);
+                       c_nextid := c_nextid (get_conn st k) |}, [ICheck k])) /\
+  (forall k f e c, snd (exec cf st (IGetDest k f e c) room) = [IRemoteCan k f e c (e_dest e)] \/
+                   count_dec k (snd (exec cf st (IGetDest k f e c) room)) = 1) /\
+  (forall k f e c d, snd (exec cf st (IRemoteCan k f e c d) room) = [IAddDest k f e c d] \/
+                     count_dec k (snd (exec cf st (IRemoteCan k f e c d) room)) = 1) /\
+  (forall t s, match snd (items_entomb cf st t) with
+               | Some (_, true) => count_dec (key_conn t) (snd (exec cf st (IEntomb t s) room)) = 1
+               | _ => snd (exec cf st (IEntomb t s) room) = []
+               end) /\
+  (forall t, match snd (items_delete st t) with
+             | Some (_, true) => count_dec (key_conn t) (snd (exec cf st (IDelete t) room)) = 1
+             | _ => snd (exec cf st (IDelete t) room) = []
+             end).
+Proof. exact (fun cf st room => conj (fun k => dec_then_check cf st k room) (dec_sites_model cf st room)). Qed.
+Print Assumptions C09_decrement_model.
+
+(* ONE STEP FROM ANY STATE (no reachability or quiescence hypothesis): the counter of a
+   connection changes only by an increment on an ACTIVE connection, or by the decrement of
+   decrementPending -- and then the very next action of the decrementing goroutine is the close
+   check of that connection. *)
+Theorem C09_pending_step : forall cf st l st' k, step cf st l = Some st' ->
+  c_pending (get_conn st' k) = c_pending (get_conn st k) \/
+  (c_state (get_conn st k) = c_connectionActive /\ c_state (get_conn st' k) = c_connectionActive /\
+   c_pending (get_conn st' k) = wrapU 32 (c_pending (get_conn st k) + 1)) \/
+  (c_state (get_conn st' k) = c_state (get_conn st k) /\
+   c_pending (get_conn st' k) = wrapU 32 (c_pending (get_conn st k) - 1) /\
+   exists t room rest, l = LStep t room /\ lookup tid_eqb t (threads st') = Some (ICheck k :: rest)).
+Proof. exact pending_step. Qed.
+Print Assumptions C09_pending_step.
+
+(* a connection that has left connectionActive never returns to it (so its counter never grows) *)
+Theorem C09_inactive_stays : forall cf st l st' k, step cf st l = Some st' ->
+  c_state (get_conn st k) <> c_connectionActive -> c_state (get_conn st' k) <> c_connectionActive.
+Proof. exact inactive_stays. Qed.
+Print Assumptions C09_inactive_stays.
+
+(* C09_forgotten_can_close FROM EVERY STATE: whenever a step brings the counter of a connection
+   that is in connectionStartClose (or InboundClosed) from non-zero to 0 -- whatever the rest of
+   the relay is doing, whichever of rejection, timeout, failure or final frame released the last
+   unit --, that step is the decrement of some goroutine t, t's next action is the close check,
+   and that action moves the connection to connectionClosed. *)
+Theorem C09_drop_to_zero_closes : forall cf st l st' k, step cf st l = Some st' ->
+  c_pending (get_conn st k) <> 0 -> c_pending (get_conn st' k) = 0 ->
+  closing (c_state (get_conn st' k)) = true ->
+  exists t room rest, l = LStep t room /\ lookup tid_eqb t (threads st') = Some (ICheck k :: rest) /\
+    forall room', exists st'', step cf st' (LStep t room') = Some st'' /\
+                               c_state (get_conn st'' k) = c_connectionClosed /\ c_pending (get_conn st'' k) = 0.
+Proof. exact drop_to_zero_closes. Qed.
+Print Assumptions C09_drop_to_zero_closes.
+
+(* ---- the tombstone collection is relayItems.deleteTomb ---- *)
+
+(* a scheduled collection that meets a live item consumes the pending collection and nothing else *)
+Theorem C09_collection_leaves_live_item : forall cf st t it,
+  panicked st = 0 -> mem_key t (gcs st) = true ->
+  lookup key_eqb t (items st) = Some it -> it_tomb it = false ->
+  step cf st (LGc t) = Some (set_gcs st (remove_one t (gcs st))).
+Proof. exact gc_of_live_item_noop. Qed.
+Print Assumptions C09_collection_leaves_live_item.
+
+(* ---- (C) schedules with re-used ids ----
+
+   [run_reuse] (Proofs/RelayReuseP.v) accepts every interleaving of any number of connections,
+   calls, frames, timeouts, full send buffers, closes, losses AND re-used ids in which a call req
+   that re-uses an id finds, at its getDestination step, an item for that id: the earlier call is
+   IN FLIGHT (a duplicate call req against a live item), timed out or failed (tombstone period).
+   [run_fresh] schedules are [run_reuse] schedules (C03_fresh_schedules_included). *)
+
+Theorem C09_end_at_most_once_reuse : forall cf ls st, run_reuse cf init ls = Some st ->
+  end_at_most_once cb_is_end (cblog st).
+Proof. exact reuse_end_at_most_once. Qed.
+Print Assumptions C09_end_at_most_once_reuse.
+
+(* the call in flight under a duplicated id is still ended exactly once (e.g. by its timeout
+   when the backend stays silent), and so is the rejected duplicate *)
+Theorem C09_end_exactly_once_reuse : forall cf ls st, run_reuse cf init ls = Some st -> quiescent st ->
+  forall c, 1 <= c < next_call st -> end_exactly_once cb_is_end c (cblog st).
+Proof. exact reuse_end_exactly_once. Qed.
+Print Assumptions C09_end_exactly_once_reuse.
+
+Theorem C09_forgotten_reuse : forall cf ls st, run_reuse cf init ls = Some st -> quiescent st -> gcs st = [] ->
+  items st = [] /\ forall k, c_pending (get_conn st k) = 0.
+Proof. exact reuse_forgotten. Qed.
+Print Assumptions C09_forgotten_reuse.
+
+(* C09_timer_protocol, strengthened from fresh-id schedules to re-use schedules *)
+Theorem C09_timer_protocol_reuse : forall cf ls st, run_reuse cf init ls = Some st ->
+  panicked st = 0 /\
+  forall tm x, lookup Z.eqb tm (timers st) = Some x ->
+    (tm_stopped x = true -> tm_armed x = false /\ tm_active x = false /\
+       forall code, In (TT tm, code) (threads st) -> code <> [ITimerRun tm]) /\
+    (tm_released x = true -> tm_active x = false /\ forall t it, In (t, it) (items st) -> it_tm it <> tm).
+Proof. exact reuse_timer_protocol. Qed.
+Print Assumptions C09_timer_protocol_reuse.
+
+(* The guard on re-use schedules CANNOT be dropped entirely, also with relayItems.deleteTomb.
+   (1) The schedule that needed it before the fix (finishRelayItem deletes a tombstone whose
+   collection is pending, the id is re-used and admitted, the stale collection fires) is now
+   harmless: the live item and its armed timer survive the stale collection.
+   (2) But a re-used id that meets NO item can be admitted while another goroutine still holds
+   the key: the reader of the destination connection has looked the originating item up for the
+   final call res, the caller cancels (both items deleted, End) and re-uses the id at once, the
+   first reader's finishRelayItem then deletes the LIVE item of the new call and releases its
+   active timer: the model reaches the Go panic "only stopped or completed timers can be
+   released".  (A caller that re-uses the id of a call whose response it has not seen; outside
+   the quantifier of C09, reported to C03.) *)
+Theorem C09_stale_collection_harmless :
+  exists st it x, run ex_cf init ex_early_delete = Some st /\ panicked st = 0 /\ gcs st = [(1, 1, 1)] /\
+    lookup key_eqb (0, 0, 7) (items st) = Some it /\ it_tomb it = false /\
+    lookup Z.eqb (it_tm it) (timers st) = Some x /\ tm_armed x = true.
+Proof. exact stale_collection_harmless. Qed.
+Theorem C09_timer_protocol_unguarded_refuted :
+  exists ls st, run cn_cf init ls = Some st /\ panicked st = panic_release_active.
+Proof. exact reuse_unguarded_refuted. Qed.
+Print Assumptions C09_timer_protocol_unguarded_refuted.
+
+(* Non-vacuity.  A duplicate call req against the call in flight, then silence from the backend:
+   a re-use schedule that is not a fresh-id schedule; the duplicate (call 2) is ended at once, the
+   call in flight (call 1) by its timeout; after the collections nothing is left. *)
+Example C09_example_duplicate_vs_live :
+  run_fresh dup_cf init dup_live_run = None /\
+  exists st, run_reuse dup_cf init dup_live_run = Some st /\
+    threads st = [] /\ items st = [] /\ gcs st = [] /\ c_pending (get_conn st 0) = 0 /\ c_pending (get_conn st 1) = 0 /\
+    cblog st = [(1, CbEnd); (1, CbFailed reason_timeout); (2, CbEnd); (2, CbFailed reason_duplicate); (1, CbSent)].
+Proof. split; [vm_compute; reflexivity|]. eexists. vm_compute. repeat split; reflexivity. Qed.
+
+(* a rejection that races with a graceful close: the connection is closed by the close check
+   that follows the rejection's decrement *)
+Example C09_example_close_vs_rejection :
+  exists st, run_fresh dup_cf init close_vs_reject_run = Some st /\ threads st = [] /\
+    c_state (get_conn st 0) = c_connectionClosed /\ c_pending (get_conn st 0) = 0 /\
+    cblog st = [(1, CbEnd); (1, CbFailed reason_bad_host)].
+Proof. eexists. vm_compute. repeat split; reflexivity. Qed.
